@@ -592,6 +592,8 @@ func VerifLBMain(args []string) int {
 			fmt.Fprintln(iw, rep)
 			if ownW != nil {
 				fmt.Fprintln(ownW, strings.TrimSpace(w.own.after(w)))
+				iw.Flush()
+				ownW.Flush()
 			}
 		}
 		return 0
@@ -621,10 +623,17 @@ func VerifLBMain(args []string) int {
 		for i := 0; i < *nops; i++ {
 			line := w.gen()
 			fmt.Fprintln(ow, line)
+			if ownW != nil {
+				ow.Flush()
+			}
 			rep := vExecGuard(w, strings.Fields(line), ow, iw, ownW)
 			fmt.Fprintln(iw, rep)
 			if ownW != nil {
 				fmt.Fprintln(ownW, strings.TrimSpace(w.own.after(w)))
+				// flush per line: after a crash or hang of the code under test the last sequence on file is the failing input
+				ow.Flush()
+				iw.Flush()
+				ownW.Flush()
 			}
 			if rep == "panic" {
 				break
